@@ -322,7 +322,7 @@ theorem stepThread_cRead (s : Sys) (t : Thread) (blk : Nat) (h : (stepThread s t
     rw [hp] at h; simp only at h
     split at h
     · simp at h
-    · exact absurd h (adv _)
+    · simp at h
   | cRead b => rw [hp] at h; simp at h
   | cNext b =>
     rw [hp] at h; simp only at h
@@ -568,7 +568,7 @@ theorem donenil_step (s : Sys) (t : Thread) (h : DoneNil t) : DoneNil (stepThrea
     simp only
     split
     · exact fun e => by simp at e
-    · exact DoneNil_advance _ _
+    · exact fun e => by simp at e
   | cQuiesced blk => simp only; exact fun e => by split at e <;> simp at e
   | cWait blk => simp only; exact fun e => by split at e <;> simp at e
   | cRead blk => exact fun e => by simp at e
@@ -957,7 +957,7 @@ theorem claim_target_is_tail (s : Sys) (t : Thread) (blk : Nat) (r : Bool)
     rw [hp] at h; simp only at h
     split at h
     · simp at h
-    · exact absurd h (adv _)
+    · simp at h
   | cQuiesced b => rw [hp] at h; simp only at h; split at h <;> simp at h
   | cWait b => rw [hp] at h; simp only at h; split at h <;> simp at h
   | cRead b => rw [hp] at h; simp at h
